@@ -245,7 +245,8 @@ pub fn fuzz_one(target: &str, data: &[u8]) -> FuzzOut {
                 Ok(_) => {
                     let bound = crate::props::c03::mem_bound(input.len());
                     if peak > bound || single > bound {
-                        fails.push(fail!(format!("memory:{}", name), "{} parser allocated peak {} bytes (largest single request {}) for a {}-byte input (bound {}): {}", name, peak, single, input.len(), bound, crate::engine::show(&input[..input.len().min(300)])));
+                        let known_class = t == T_CONFIG && single <= bound && peak <= bound + crate::props::c03::config_route_allowance(input);
+                        fails.push(fail!(if known_class { "memory:config:route-patterns-x-settings".to_string() } else { format!("memory:{}", name) }, "{} parser allocated peak {} bytes (largest single request {}) for a {}-byte input (bound {}): {}", name, peak, single, input.len(), bound, crate::engine::show(&input[..input.len().min(300)])));
                     }
                 }
             }
